@@ -121,7 +121,9 @@ directive @transform(op: String!) repeatable on FIELD
         for definition in doc.definitions {
             match definition {
                 TypeSystemDefinition::Schema(s) => {
-                    assert!(schema.is_none());
+                    if schema.is_some() {
+                        return Err(InvalidSchemaError::DuplicateSchemaDefinition);
+                    }
                     if s.node.extend {
                         unimplemented!("Trustfall does not support extending schemas");
                     }
@@ -195,15 +197,17 @@ directive @transform(op: String!) repeatable on FIELD
             }
         }
 
-        let schema = schema.expect("Schema definition was not present.");
+        let schema = schema.ok_or(InvalidSchemaError::MissingSchemaDefinition)?;
         let query_type_name =
-            schema.query.as_ref().expect("No query type was declared in the schema").node.as_ref();
+            schema.query.as_ref().ok_or(InvalidSchemaError::MissingQueryType)?.node.as_ref();
         let query_type_definition = vertex_types
             .get(query_type_name)
-            .expect("The query type set in the schema object was never defined.");
+            .ok_or_else(|| InvalidSchemaError::QueryTypeNotDefined(query_type_name.to_string()))?;
         let query_type = match &query_type_definition.kind {
             TypeKind::Object(o) => o.clone(),
-            _ => unreachable!(),
+            _ => {
+                return Err(InvalidSchemaError::QueryTypeNotObjectType(query_type_name.to_string()));
+            }
         };
 
         let mut errors = vec![];
